@@ -5,6 +5,7 @@ import (
 	"go/token"
 	"go/types"
 	"sort"
+	"strings"
 
 	"golang.org/x/tools/go/ssa"
 
@@ -201,7 +202,18 @@ func checkDrawTermAgreement(p *core.Program, r *core.Report) {
 	if g.wordDraw != nil {
 		b := core.Strip(g.wordDraw.Call.Args[0])
 		c, ok := b.(*ssa.Call)
-		r.Check(ok && core.StaticCallee(c) == p.Method("WLRecipe", "Size"), "R6.2", name, "each word draw is bounded by Size(), the quantity in the base term", p.InstrPos(g.wordDraw), core.Describe(b))
+		okB := ok && core.StaticCallee(c) == p.Method("WLRecipe", "Size")
+		if g.wordViaPick {
+			// uniform pick over list.words: its bound is len(words), which Size() reports (saturating)
+			if sz := p.Method("WLRecipe", "Size"); sz != nil {
+				if path, okS := sizeSummary(p, sz, 0); okS {
+					if root, ap, okP := valueAccessPath(g.wordDraw.Call.Args[0]); okP && root == ssa.Value(g.recv) && strings.Join(ap, ".") == strings.Join(path, ".") {
+						okB = true
+					}
+				}
+			}
+		}
+		r.Check(okB, "R6.2", name, "each word draw is bounded by Size(), the quantity in the base term", p.InstrPos(g.wordDraw), core.Describe(b))
 		inMain := g.main != nil && g.main.Loop.Blocks[g.wordDraw.Block()] && recipeField(g.main.Bound, "Length")
 		r.Check(inMain, "R6.2", name, "Length word draws (one per iteration of the 0..Length loop)", p.InstrPos(g.wordDraw), "")
 	}
